@@ -16,7 +16,7 @@ fi
 cd /verif
 for id in "$@"; do
   mkdir -p /tmp/evid_$$; cp evidence/$id.json /tmp/evid_$$/ 2>/dev/null
-  PYTHONPATH="$WT/src" timeout 3000 /venv/bin/python run_check.py "$id" --tier "${TIER:-quick}" 2>&1 | grep -v "^KNOWN-FINDING" | grep -E "VIOLATION|verdict=|witness key" | head -6
+  PYTHONPATH="$WT/src" timeout 3000 /venv/bin/python run_check.py "$id" --tier "${TIER:-quick}" ${EXTRA:-} 2>&1 | grep -v "^KNOWN-FINDING" | grep -E "VIOLATION|verdict=|witness key" | head -6
   echo "  -> $id exit ${PIPESTATUS[0]}"
   cp /tmp/evid_$$/$id.json evidence/ 2>/dev/null   # keep the committed evidence of the unchanged tree
 done
